@@ -198,6 +198,8 @@ func (p *Profile) projFile(f *fit.File) *FileProj {
 				for j := 0; j < fv.Len(); j++ {
 					e := fv.Index(j)
 					if e.Kind() == reflect.Ptr && e.IsNil() {
+						// an entry that is no message at all: it still counts as an entry of the slot
+						list = append(list, &MsgProj{M: 65535, F: [][]interface{}{}})
 						continue
 					}
 					list = append(list, p.projMsg(e.Interface()))
